@@ -62,7 +62,7 @@ ExpBig(e, co) ==
 
 \* slack of the "ignore the last dsize-2 limbs of the partial products" optimisation, in units of the key's last limb
 DropSlackKey(e) ==
-  LET T == e.rin * RUsed(e) * NN(e)
+  LET T == e.rin * e.dnum * NN(e)        \* dnum >= the rows actually used
       RECURSIVE D(_)
       D(di) == IF di > e.dsize - 3 THEN 0 ELSE T * Pow2(2 * e.bkey - 2 + (e.dsize - di - 3) * e.bkey + 1) + D(di + 1)
   IN IF e.dsize >= 3 THEN D(0) ELSE 0
